@@ -10,6 +10,7 @@ mod c02;
 mod c11;
 mod c15;
 mod c19;
+mod c20;
 mod registry;
 
 fn main() {
@@ -21,6 +22,7 @@ fn main() {
         "C02" => (c02::items(&args), c02::RULE),
         "C11" => (c11::items(&args), c11::RULE),
         "C19" => (c19::items(&args), c19::RULE),
+        "C20" => (c20::items(&args), c20::RULE),
         p => panic!("mon_ff does not serve property {p}"),
     };
     let rep = run_items(&args, items);
